@@ -146,6 +146,11 @@ func genC07(r *simrt.Rand, idx int, tier string) ConcCase {
 	for t := 1; t <= nt; t++ {
 		c.Init = append(c.Init, Op{K: "begin", Tx: t, Level: 2 + r.Intn(2)})
 	}
+	if idx%6 == 1 {
+		// the transactions sit idle after their Begin while the rest of the process draws a few
+		// thousand (or a million) sequence numbers; their first statements come afterwards
+		c.Init = append(c.Init, Op{K: "seqjump", Size: []int{1025, 5000, 1<<20 + 1}[r.Intn(3)]})
+	}
 	hot := c.Keys[r.Intn(len(c.Keys))]
 	for t := 1; t <= nt; t++ {
 		var ops []Op
@@ -405,6 +410,12 @@ func genC08(r *simrt.Rand, idx int, tier string) ConcCase {
 	if r.Intn(2) == 0 {
 		var ops []Op
 		for k := 0; k < 1+r.Intn(3); k++ {
+			if idx%3 == 1 && r.Intn(3) == 0 {
+				// an autocommit Delete under the readers' feet (the version it supersedes is what a
+				// snapshot begun earlier still reads)
+				ops = append(ops, Op{K: "del", Key: c.Keys[r.Intn(len(c.Keys))]}, Op{K: "drain"})
+				continue
+			}
 			id++
 			ops = append(ops, Op{K: "set", Key: c.Keys[r.Intn(len(c.Keys))], ID: id, Size: smallSize(r)})
 		}
@@ -497,11 +508,28 @@ func checkC08(c ConcCase, cr *concRun, out *RunOut) *Violation {
 					continue
 				}
 				if e.Class == "ErrNotFound" {
-					// no deletes are generated: a key written before Begin was invoked must be found
+					// "not found" needs a Delete that may have taken effect before Begin returned and that
+					// no value written strictly after it and strictly before Begin was invoked supersedes;
+					// without one, a key written before Begin was invoked must be found
+					justified := false
+					for _, d := range events[k] {
+						if d.ID != 0 || d.Start > br {
+							continue
+						}
+						superseded := false
+						for _, o := range events[k] {
+							if o.ID != 0 && o.Start > d.End && o.End < bc {
+								superseded = true
+							}
+						}
+						if !superseded {
+							justified = true
+						}
+					}
 					for _, w := range events[k] {
-						if w.End < bc {
+						if !justified && w.ID != 0 && w.End < bc {
 							return &Violation{Class: "missing-present-key", Signature: "C08|snapshot-missing-key",
-								Detail: fmt.Sprintf("snapshot transaction %d (began [%d..%d]): Get(%q) = ErrNotFound (%s) although value #%d was committed in [%d..%d], before Begin was invoked, and the key is never deleted", s, bc, br, k, e.Err, w.ID, w.Start, w.End)}
+								Detail: fmt.Sprintf("snapshot transaction %d (began [%d..%d]): Get(%q) = ErrNotFound (%s) although value #%d was committed in [%d..%d], before Begin was invoked, and no Delete that could have taken effect before Begin returned explains it", s, bc, br, k, e.Err, w.ID, w.Start, w.End)}
 						}
 					}
 					continue
@@ -596,7 +624,7 @@ func readStr(e HEvent) string {
 
 func init() {
 	Register(propConc{id: "C07",
-		rule: "cases: 2-3 RepeatableRead/Serializable transactions begun sequentially before the concurrent phase, each owned by one client that writes 1-3 values (2/3 of them to one hot key) and commits, all concurrently, plus optionally an autocommit writer on the same keys and a collector actor; seeded schedule (uniform/PCT); oracle over the call/return history: two overlapping snapshot writers of one key never both succeed, a write committed entirely between Begin and the Commit call forces ErrTxSerialization, a failed Commit is justified by some possibly-concurrent committed write, after quiescence no key holds a loser's value nor a value certainly superseded by a later acknowledged write; non-trivial = two clients' operations overlapped (a Commit overlapping another client's operation)",
+		rule: "cases: 2-3 RepeatableRead/Serializable transactions begun sequentially before the concurrent phase, each owned by one client that writes 1-3 values (2/3 of them to one hot key) and commits, all concurrently (every 6th program: after the Begins the shared sequence counter leaps by 1025 ... 2^20 before anybody's first statement), plus optionally an autocommit writer on the same keys and a collector actor; seeded schedule (uniform/PCT); oracle over the call/return history: two overlapping snapshot writers of one key never both succeed, a write committed entirely between Begin and the Commit call forces ErrTxSerialization, a failed Commit is justified by some possibly-concurrent committed write, after quiescence no key holds a loser's value nor a value certainly superseded by a later acknowledged write; non-trivial = two clients' operations overlapped (a Commit overlapping another client's operation)",
 		runs: [2]int{12000, 250000}, gen: genC07, check: checkC07})
 	Register(propConc{id: "C08",
 		rule: "cases: 1-2 snapshot readers that Begin during the concurrent phase and read every key and GetKeys twice, 1-2 committers each committing unique values to 2-3 keys at once (1-2 rounds), optional autocommit writer, collector actor (direct and GC timer) and other transactions beginning/ending; seeded schedule (uniform/PCT); oracle: interval rules over call/return event numbers only - atomic visibility (a reader that sees one write of a commit does not read, on another key of that commit, a value acknowledged before the Commit was invoked), snapshot validity (the value read was committed no later than Begin returned and is not certainly superseded before Begin was invoked; a present key is found), no dirty read, repeatable read of every key and of GetKeys; non-trivial = operations of different clients overlapped",
